@@ -442,29 +442,39 @@ def concrete_values(trace_text):
     lines = seg.split("\n")
     vals = []
     for k, line in enumerate(lines):
-        if not ANY_STATE.match(line):
+        sm = ANY_STATE.match(line)
+        if not sm:
             continue
+        is_array = "any_raw_array" in sm.group(1)
         # the assignment is two lines below the state header
         for a in lines[k + 1:k + 4]:
             a = a.strip()
             if not a.startswith("goto_symex$$return_value"):
                 continue
             lhs, _, rhs = a.partition("=")
-            if "[" in lhs or "." in lhs.replace("goto_symex$$return_value", "").split("$$")[-1].replace("::", ""):
-                break        # element / member of an aggregate already taken as a whole
+            elem = re.search(r"\[(\d+)\]\s*$", lhs)
+            if elem and not is_array:
+                break        # element of an aggregate already taken as a whole
+            if not elem and ("[" in lhs or "." in lhs.replace("goto_symex$$return_value", "").split("$$")[-1].replace("::", "")):
+                break        # member of an aggregate already taken as a whole
             m = re.search(r"\((\{?[01 ,{}]+\}?)\)\s*$", rhs)
             if not m:
                 break
             groups = [g.strip() for g in m.group(1).strip("{} ").split(",")]
-            out = []
+            per_group = []
             for g in groups:
                 bits = g.replace(" ", "")
                 if not bits or len(bits) % 8:
-                    out = None
+                    per_group = None
                     break
                 n = int(bits, 2)
-                out += list(n.to_bytes(len(bits) // 8, "little"))
-            if out is not None:
-                vals.append(out)
+                per_group.append(list(n.to_bytes(len(bits) // 8, "little")))
+            if per_group is not None:
+                if is_array:
+                    # Kani's playback consumes one value per array ELEMENT (any_raw_array = N x any_raw_internal); with array field
+                    # sensitivity CBMC reports the returned array element by element ([k]=..), otherwise as one aggregate {..}
+                    vals.extend(per_group)
+                else:
+                    vals.append([b for gr in per_group for b in gr])
             break
     return vals
